@@ -51,7 +51,7 @@ P = {
  "C18": ("E1", "exhaustive enumeration of (schedule prefix, freeze point) pairs with a solo-run continuation",
          "O-solo: from every reachable state (others frozen at every scheduling point within the bound, including inside add_stream / unsubscribe / into_single / clone / drop) one try operation run alone must return within K of its own steps without yield/sleep/spin/lock wait."),
  "C19": ("E3", "exhaustive compile-probe matrix (bounded enumeration of programs, rustc as oracle)",
-         "every well-formed cell of handle type x payload class x closure class x {Send,Sync} compiled against the guard-off crate; verdict compared with the table derived from the statement."),
+         "every well-formed cell of handle type x payload class x closure class x {Send,Sync} compiled against the guard-off crate; verdict compared with the table derived from the statement; the *_with constructors must accept a custom wait strategy exactly when it is Send + Sync."),
 }
 NOTE = ("Trusted: the hook shim (src/verif_hooks.rs) forwards every atomic/lock/condvar/yield/alloc operation of the crate "
         "and marks the plain accesses the protocols protect (stream list, slot values); schedules are sequentially "
